@@ -66,6 +66,8 @@ class C07(Prop):
         kw = dict(HI) if case["acc"] == "high" else ({"solver": "CLARABEL"} if case["model"] == "poisson" else {})
         if extra:
             kw["batch_size"] = case["bs"]
+        # warm-up: the same model on a sibling system (other baseline) must leave no trace
+        gs.warm(lambda: (gs.make_estimator(gs.sibling(sys), w=w) if np.any(w != 1.0) else gs.make_estimator(gs.sibling(sys))).fit(B, model=case["model"], **kw))
         X, Bp = est.fit(B, model=case["model"], **kw)
         out = {"X": np.asarray(X, dtype=float)[row].tolist(), "Bpred": np.asarray(Bp, dtype=float)[row].tolist()}
         Xg, Bg = est.fit(np.asarray(case["b"])[None], model="gaussian", **HI)
